@@ -163,7 +163,10 @@ class Check(CheckBase):
         listed = [n async for n in repo._aiter(backend.list_files, '')]
         if len(set(listed)) != len(listed):
             bad('listing returns a name twice', names=[n for n in listed if listed.count(n) > 1][:3])
-        objects = raw_objects()
+        raw = raw_objects()
+        # what exists for the repository is what the backend lists (its own temporaries, whatever they are called, are not)
+        objects = {n: raw[n] for n in listed if n in raw}
+        objects['config'] = raw['config']
         ref = refimpl.Ref(objects['config'], truth.key, truth.password)
         visible = {}
         for name in listed:
@@ -246,9 +249,10 @@ class Check(CheckBase):
             with rep.capture():
                 await r5.clean()
             counters['followup_cleans'] = counters.get('followup_cleans', 0) + 1
-            objects = raw_objects()
-            listed = [n async for n in r5._aiter(make_backend().list_files, 'data/')]
-            refd, _ = refimpl.referenced_locations(ref, {k: v for k, v in objects.items() if not k.endswith('.tmp')})
+            raw = raw_objects()
+            listed_all = [n async for n in r5._aiter(make_backend().list_files, '')]
+            listed = [n for n in listed_all if n.startswith('data/')]
+            refd, _ = refimpl.referenced_locations(ref, {n: raw[n] for n in listed_all if n in raw})
             have = set(listed)
             if have != refd:
                 bad('after clean the chunk objects differ from the referenced set',
